@@ -1,2 +1,122 @@
-// Package vos is filled in by the C08 fault engine (see fault.go).
+// Package vos is a drop-in replacement for the subset of package os used by
+// config/gateway_file_system.go.  Every call is a numbered fault point: the harness can make
+// exactly the k-th call (and optionally a second, later one) fail with EIO.  Without a plan
+// every function forwards to package os unchanged.
 package vos
+
+import (
+	"io/fs"
+	"os"
+	"sync/atomic"
+	"syscall"
+)
+
+type (
+	FileInfo = os.FileInfo
+	FileMode = os.FileMode
+)
+
+const ModePerm = os.ModePerm
+
+var (
+	calls  atomic.Int64
+	failAt [2]atomic.Int64 // 1-based call numbers that fail; 0 = none
+	log    atomic.Pointer[[]string]
+)
+
+// Reset clears the call counter and installs a fault plan (0 = no fault).
+func Reset(k1, k2 int64) {
+	calls.Store(0)
+	failAt[0].Store(k1)
+	failAt[1].Store(k2)
+	l := []string{}
+	log.Store(&l)
+}
+
+// Calls returns how many fault points were passed since Reset.
+func Calls() int64 { return calls.Load() }
+
+// Trace returns the labels of the fault points passed since Reset.
+func Trace() []string {
+	if p := log.Load(); p != nil {
+		return *p
+	}
+	return nil
+}
+
+func point(label string) error {
+	n := calls.Add(1)
+	if p := log.Load(); p != nil {
+		*p = append(*p, label)
+	}
+	if n == failAt[0].Load() || n == failAt[1].Load() {
+		return &fs.PathError{Op: "verif-fault:" + label, Path: "", Err: syscall.EIO}
+	}
+	return nil
+}
+
+func IsNotExist(err error) bool { return os.IsNotExist(err) }
+
+func Remove(name string) error {
+	if err := point("Remove"); err != nil {
+		return err
+	}
+	return os.Remove(name)
+}
+
+func MkdirAll(path string, perm FileMode) error {
+	if err := point("MkdirAll"); err != nil {
+		return err
+	}
+	return os.MkdirAll(path, perm)
+}
+
+func Stat(name string) (FileInfo, error) {
+	if err := point("Stat"); err != nil {
+		return nil, err
+	}
+	return os.Stat(name)
+}
+
+// File wraps *os.File so that Write / Read / Close are fault points too.
+type File struct{ f *os.File }
+
+func Create(name string) (*File, error) {
+	if err := point("Create"); err != nil {
+		return nil, err
+	}
+	f, err := os.Create(name)
+	if err != nil {
+		return nil, err
+	}
+	return &File{f}, nil
+}
+
+func Open(name string) (*File, error) {
+	if err := point("Open"); err != nil {
+		return nil, err
+	}
+	f, err := os.Open(name)
+	if err != nil {
+		return nil, err
+	}
+	return &File{f}, nil
+}
+
+func (f *File) Write(b []byte) (int, error) {
+	if err := point("Write"); err != nil {
+		// a failed write may leave a partial file behind: write half of the content
+		n, _ := f.f.Write(b[:len(b)/2])
+		return n, err
+	}
+	return f.f.Write(b)
+}
+
+func (f *File) Read(b []byte) (int, error) { return f.f.Read(b) }
+
+func (f *File) Close() error {
+	if f == nil || f.f == nil {
+		return nil
+	}
+	return f.f.Close()
+}
